@@ -20,8 +20,8 @@ RULE = ("one case = (frame spec, two input partitionings - even or explicit spli
 ASSUMPTIONS = [
     "a pack_partitions call that raises claims nothing (counted as outcome 'raised'); more than "
     "half of the runs raising is reported as a harness problem",
-    "Hilbert-distance oracle: the library's pandas-level hilbert_distance on a fresh array against "
-    "the model's tight total bounds of the active geometry",
+    "Hilbert-distance oracle: an independent reference (classical curve over the bbox-centre cell, "
+    "same float64 scaling) against the model's tight total bounds of the active geometry",
     "no storage and no faults in this property; the simulated dimension is the task schedule",
 ]
 COMPONENTS = {
